@@ -613,7 +613,7 @@ pub fn normalize(
         let f = parse(&text, "extraction")?;
         let (mut froms, nfrom) = if skip("N10") { (String::new(), 0) } else { from_impls(&f, &text) };
         // N17: a kept `derive(PartialEq)` is structural equality; say so to Verus
-        if keep_derives.iter().any(|d| d == "PartialEq") {
+        if !skip("N17") && keep_derives.iter().any(|d| d == "PartialEq") {
             for it in &f.items {
                 let (ident, generics, attrs) = match it {
                     syn::Item::Struct(x) => (&x.ident, &x.generics, &x.attrs),
@@ -929,7 +929,7 @@ pub fn splice(
                 syn::ReturnType::Type(_, ty) => range(ty.span()).end,
                 syn::ReturnType::Default => range(c.or2_token.span()).end,
             };
-            edits.push(Edit { start: hs, end: he, text: t.trim().to_string(), rule: "closure-header" });
+            edits.push(Edit { start: hs, end: he, text: format!("{}\n        ", t.trim()), rule: "closure-header" });
             if !matches!(*c.body, syn::Expr::Block(_)) {
                 let br = range(c.body.span());
                 edits.push(Edit { start: br.start, end: br.start, text: "{ ".into(), rule: "closure-header" });
